@@ -23,6 +23,10 @@ pub enum Piece {
     Nl,
     /// literal newline character
     NlLit,
+    /// k >= 2 backslashes and an n: the last backslash escapes the escape, the text shows k - 1 backslashes and the n
+    EscNl(u8),
+    /// "${" that is never closed (generated as the last piece only): plain text
+    OpenBrace,
 }
 
 #[derive(Clone, Debug, Serialize, Deserialize)]
@@ -67,6 +71,8 @@ fn piece() -> impl Strategy<Value = Piece> {
         2 => Just(Piece::Nl),
         1 => Just(Piece::NlLit),
         1 => Just(Piece::Lit("  spaced  out  ".into())),
+        1 => (2u8..5).prop_map(Piece::EscNl),
+        1 => Just(Piece::OpenBrace),
     ]
 }
 
@@ -95,6 +101,13 @@ fn fam_cases(_t: Tier) -> BoxedStrategy<Case> {
             let anchored = if shape % 9 == 8 && loc.is_some() && anchored <= 9 { anchored } else { 0 };
             // the svgdx-only pseudo elements <point> and <box> take text through the attribute only (content form is not documented for them)
             let carrier = if matches!(shape % 9, 6 | 7) { 0 } else { carrier };
+            // an unclosed "${" is plain text as long as no "}" follows it: keep one, as the last piece
+            let mut pieces = pieces;
+            if let Some(i) = pieces.iter().position(|p| matches!(p, Piece::OpenBrace)) {
+                pieces.retain(|p| !matches!(p, Piece::OpenBrace));
+                let _ = i;
+                pieces.push(Piece::OpenBrace);
+            }
             Case { shape, g, carrier, pieces, loc, side, vertical, pre, offset, delta, d, lsp, text_style, extras, anchored, mix }
         })
         .boxed()
@@ -112,6 +125,11 @@ fn author_text(c: &Case) -> String {
             Piece::Expr(a, b) => s.push_str(&format!("{{{{{a} + {b}}}}}")),
             Piece::Nl => s.push_str("\\n"),
             Piece::NlLit => s.push('\n'),
+            Piece::EscNl(k) => {
+                s.push_str(&"\\".repeat((*k).clamp(2, 5) as usize));
+                s.push('n');
+            }
+            Piece::OpenBrace => s.push_str("cost ${5"),
         }
     }
     s
@@ -145,6 +163,11 @@ fn expected_text(c: &Case) -> String {
             Piece::Undef => s.push_str("$nosuchvar"),
             Piece::Expr(a, b) => s.push_str(&format!("{}", a + b)),
             Piece::Nl | Piece::NlLit => s.push('\n'),
+            Piece::EscNl(k) => {
+                s.push_str(&"\\".repeat((*k).clamp(2, 5) as usize - 1));
+                s.push('n');
+            }
+            Piece::OpenBrace => s.push_str("cost ${5"),
         }
     }
     s
